@@ -7,7 +7,7 @@ Only drives and projects; Trace_Resolution judges.
 
 A script is a list of records (the environment's choices only):
   {"op":"cfg", ns, rsf, tcp, rna, cache, life, tmo, qtype, search, domain, ndots, usd, t0}
-  {"op":"begin", qname, search ("none"|"true"|"false"), life (ticks, 0 = resolver default)}
+  {"op":"begin", qname, search ("none"|"true"|"false"), life (ticks, 0 = resolver default), qtype, qclass}
   {"op":"out", out: <outcome>, adv: ticks}      consumed, in order, by whichever server is asked
   {"op":"adv", d: ticks}                        clock advance between two resolve() calls
 Names are lists of labels, absolute names end with "".  Time is in ticks of 1/16 s."""
@@ -57,22 +57,22 @@ def from_name(name):
 _RD = {}
 
 
-def rdata_for(ty, tgt):
-    key = (ty, tuple(tgt))
+def rdata_for(rdclass, ty, tgt):
+    key = (int(rdclass), ty, tuple(tgt))
     rd = _RD.get(key)
     if rd is None:
         rdtype = dns.rdatatype.from_text(ty)
         if ty == "CNAME":
             text = to_name(tgt).to_text()
         elif ty == "A":
-            text = "10.0.0.1"
+            text = "10.0.0.1" if rdclass == IN else "chaos.invalid. 1"
         elif ty == "AAAA":
             text = "2001:db8::1"
         elif ty == "TXT":
             text = '"x"'
         else:
             raise ValueError(ty)
-        rd = dns.rdata.from_text(IN, rdtype, text)
+        rd = dns.rdata.from_text(rdclass, rdtype, text)
         _RD[key] = rd
     return rd
 
@@ -89,14 +89,16 @@ _EXC = {
 
 
 def build_response(request, o):
+    """The abstract response o as a dns.message; every RRset is in the class of the question."""
     r = dns.message.make_response(request)
+    cls = request.question[0].rdclass if request.question else IN
     r.set_rcode(dns.rcode.from_text(o["rcode"]))
     for rr in o["ans"]:
         rdtype = dns.rdatatype.from_text(rr["ty"])
-        r.find_rrset(r.answer, to_name(rr["n"]), IN, rdtype, create=True).add(rdata_for(rr["ty"], rr["tgt"]), rr["ttl"])
+        r.find_rrset(r.answer, to_name(rr["n"]), cls, rdtype, create=True).add(rdata_for(cls, rr["ty"], rr["tgt"]), rr["ttl"])
     for s in o["auth"]:
-        rd = dns.rdata.from_text(IN, dns.rdatatype.SOA, "ns.invalid. admin.invalid. 1 3600 600 86400 %d" % s["min"])
-        r.find_rrset(r.authority, to_name(s["n"]), IN, dns.rdatatype.SOA, create=True).add(rd, s["ttl"])
+        rd = dns.rdata.from_text(cls, dns.rdatatype.SOA, "ns.invalid. admin.invalid. 1 3600 600 86400 %d" % s["min"])
+        r.find_rrset(r.authority, to_name(s["n"]), cls, dns.rdatatype.SOA, create=True).add(rd, s["ttl"])
     if not o["qr"]:
         r.flags &= ~dns.flags.QR
     if o["nq"] == 0:
@@ -118,7 +120,8 @@ class Env:
         q = request.question[0] if request.question else None
         t, exact = self.clock.exact_ticks(timeout)
         e = {"op": "query", "srv": srv, "tcp": bool(max_size), "tmo": t, "tmox": exact, "now": self.clock.now(),
-             "qn": from_name(q.name) if q is not None else [], "qtype": dns.rdatatype.to_text(q.rdtype) if q is not None else "-"}
+             "qn": from_name(q.name) if q is not None else [], "qtype": dns.rdatatype.to_text(q.rdtype) if q is not None else "-",
+             "qclass": dns.rdataclass.to_text(q.rdclass) if q is not None else "-"}
         if not self.queue:
             e["op"] = "exhausted"
             self.ev.append(e)
@@ -191,7 +194,7 @@ def answer_proj(a):
 
 
 def cache_proj(cache, now_s):
-    """Unexpired entries of the resolver's cache: [[name, type, entry], ...] sorted."""
+    """Unexpired entries of the resolver's cache: [[name, type, class, entry], ...] sorted."""
     if cache is None:
         return []
     out = []
@@ -199,9 +202,8 @@ def cache_proj(cache, now_s):
         a = v.value if isinstance(cache, dns.resolver.LRUCache) else v
         if a.expiration <= now_s:
             continue
-        out.append([from_name(key[0]), dns.rdatatype.to_text(key[1]) + ("" if key[2] == IN else "/%d" % key[2]),
-                    answer_proj(a)])
-    out.sort(key=lambda x: (x[0], x[1]))
+        out.append([from_name(key[0]), dns.rdatatype.to_text(key[1]), dns.rdataclass.to_text(key[2]), answer_proj(a)])
+    out.sort(key=lambda x: (x[0], x[1], x[2]))
     return out
 
 
@@ -264,8 +266,9 @@ def run_script(script, mode, tid):
             while j < len(script) and script[j]["op"] == "out":
                 j += 1
             env.queue = list(script[i + 1:j])
-            env.ev.append({"op": "begin", "qname": st["qname"], "search": st["search"], "life": st["life"], "now": clock.now()})
-            kw = dict(rdtype=cfg["qtype"], tcp=cfg["tcp"], raise_on_no_answer=cfg["rna"],
+            env.ev.append({"op": "begin", "qname": st["qname"], "search": st["search"], "life": st["life"],
+                           "qtype": st["qtype"], "qclass": st["qclass"], "now": clock.now()})
+            kw = dict(rdtype=st["qtype"], rdclass=st["qclass"], tcp=cfg["tcp"], raise_on_no_answer=cfg["rna"],
                       search={"none": None, "true": True, "false": False}[st["search"]],
                       lifetime=None if st["life"] == 0 else st["life"] * TICK)
             end = {"op": "end", "ans": ["none"], "nxq": []}
@@ -275,7 +278,8 @@ def run_script(script, mode, tid):
                 else:
                     a = get_loop().run_until_complete(res.resolve(to_name(st["qname"]), backend=backend, **kw))
                 end["res"] = "answer"
-                end["ans"] = ["ans", from_name(a.qname), answer_proj(a)]
+                end["ans"] = ["ans", from_name(a.qname), answer_proj(a), dns.rdatatype.to_text(a.rdtype),
+                              dns.rdataclass.to_text(a.rdclass)]
             except ScriptExhausted:
                 end["res"] = "exhausted"
             except Exception as e:  # noqa
